@@ -42,6 +42,19 @@ _BROADCAST_BINARY_OPS: tuple[str, ...] = (
 )
 
 
+def _known_equal(d1, d2) -> bool:
+    """Return True only when two dimension values are known to be equal at runtime.
+
+    ``SymbolicDim(None) == SymbolicDim(None)`` is True although two unknown
+    dimensions need not have the same size, so unknown dimensions never match.
+    """
+    if isinstance(d1, ir.SymbolicDim) and d1.value is None:
+        return False
+    if isinstance(d2, ir.SymbolicDim) and d2.value is None:
+        return False
+    return d1 == d2
+
+
 def _compute_broadcast_dim(d1, d2):
     """Return the numpy broadcast of two dimension values.
 
@@ -106,6 +119,10 @@ def _check_dims_sufficient(
     y_rank = y_shape.rank()
     if e_rank is None:
         return check_result.fail("Expand output rank is unknown.")
+    if e_rank > max(x_rank, y_rank):
+        # The Expand adds leading dimensions that neither operand has: removing it
+        # would change the rank of the result (even when those dimensions are 1).
+        return check_result.fail("Expand increases the rank beyond both operands.")
 
     for rev_i in range(e_rank):
         i = e_rank - 1 - rev_i
@@ -116,12 +133,12 @@ def _check_dims_sufficient(
 
         x_idx = x_rank - 1 - rev_i
         x_d = x_shape[x_idx] if x_idx >= 0 else 1
-        if x_d == e_d:
+        if _known_equal(x_d, e_d):
             continue  # expand is a no-op at this dimension
 
         y_idx = y_rank - 1 - rev_i
         y_d = y_shape[y_idx] if y_idx >= 0 else 1
-        if y_d == e_d:
+        if _known_equal(y_d, e_d):
             continue  # y already supplies this dimension
 
         return check_result.fail(
@@ -190,6 +207,10 @@ def _check_expand_removable(
     if expand_shape_val is not None:
         expand_shape = tuple(int(v) for v in expand_shape_val.tolist())
         expand_rank = len(expand_shape)
+        if expand_rank > max(x_rank, y_rank):
+            # Leading dimensions (even of size 1) that neither operand has would be
+            # lost: the rank of the result would change.
+            return check_result.fail("Expand increases the rank beyond both operands.")
 
         for rev_i in range(expand_rank):
             i = expand_rank - 1 - rev_i
@@ -230,7 +251,7 @@ def _check_expand_removable(
         if op_output_shape.rank() is not None:
             computed = _compute_broadcast_shape(x_shape, y_shape)
             if computed is not None and len(computed) == op_output_shape.rank():
-                if all(c == a for c, a in zip(computed, op_output_shape)):
+                if all(_known_equal(c, a) for c, a in zip(computed, op_output_shape)):
                     return check_result
         return check_result.fail(
             "broadcast(x.shape, y.shape) does not match the binary op output shape."
